@@ -1011,7 +1011,22 @@ func (e *Env) evalCall(n *Call) *Value {
 func (e *Env) applySpec(sf *SpecFunc, args []*Value) *Value {
 	g := e.g
 	if sf.Body != nil && !sf.isRecursive() {
-		sub := &Env{g: g, st: e.st, old: e.old, vars: map[string]*Value{}, pkgPath: sf.PkgPath, bound: e.bound}
+		// the macro's own parameters shadow whatever the calling context binds under the same name (a quantified
+		// variable, or the argument names of an at-call clause): no capture
+		bound := e.bound
+		for _, p := range sf.Params {
+			if _, clash := bound[p.Name]; clash {
+				bound = map[string]*Value{}
+				for k, v := range e.bound {
+					bound[k] = v
+				}
+				for _, q := range sf.Params {
+					delete(bound, q.Name)
+				}
+				break
+			}
+		}
+		sub := &Env{g: g, st: e.st, old: e.old, vars: map[string]*Value{}, pkgPath: sf.PkgPath, bound: bound}
 		for i, p := range sf.Params {
 			sub.vars[p.Name] = e.coerceArg(sf, p, args[i])
 		}
